@@ -94,6 +94,39 @@ Theorem C08_rows_unchanged :
        TROk (spec_convert color depth pal trns t w row).
 Proof. exact copy_correct. Qed.
 
+(* grey images of depth 1, 2, 4 under EXPAND / ALPHA (with or without colour key): bit unpacking + scaling = documented replication, for every width and row *)
+Theorem C08_rows_grey_subbyte :
+  forall (d : Z) (pal trns : option (list Z)) (t : Z) (w : nat) (row old : list Z),
+       d = 1 \/ d = 2 \/ d = 4 ->
+       s_expand t = true ->
+       trns <> Some [] ->
+       w = 0%nat \/ (Z.to_nat ((Z.of_nat w - 1) * d / 8) < length row)%nat ->
+       length old = (w * (if present trns || s_alpha t then 2 else 1))%nat ->
+       transform_row {| t_color := 0; t_depth := d; t_palette := pal; t_trns := trns |} t row old =
+       TROk (spec_convert 0 d pal trns t (Z.of_nat w) row).
+Proof. exact gray_expand_correct. Qed.
+
+(* indexed images of depth 1, 2, 4 under EXPAND / ALPHA: RGB / RGBA from the documented palette for every PLTE / tRNS payload *)
+Theorem C08_rows_palette_subbyte :
+  forall (d : Z) (pal : list Z) (trns : option (list Z)) (t : Z) (w : nat) (row old : list Z),
+       d = 1 \/ d = 2 \/ d = 4 ->
+       s_expand t = true ->
+       w = 0%nat \/ (Z.to_nat ((Z.of_nat w - 1) * d / 8) < length row)%nat ->
+       length old = (w * (if present trns || s_alpha t then 4 else 3))%nat ->
+       transform_row {| t_color := 3; t_depth := d; t_palette := Some pal; t_trns := trns |} t row old =
+       TROk (spec_convert 3 d (Some pal) trns t (Z.of_nat w) row).
+Proof. exact palette_subbyte_correct. Qed.
+
+(* indexed images of depth 8 (incl. the 4-bytes-at-a-time RGB writer) *)
+Theorem C08_rows_palette_8bit :
+  forall (pal : list Z) (trns : option (list Z)) (t : Z) (row old : list Z),
+       bytes_ok row ->
+       s_expand t = true ->
+       length old = (length row * (if present trns || s_alpha t then 4 else 3))%nat ->
+       transform_row {| t_color := 3; t_depth := 8; t_palette := Some pal; t_trns := trns |} t row old =
+       TROk (spec_convert 3 8 (Some pal) trns t (zlen row) row).
+Proof. exact palette8_correct. Qed.
+
 (* ---- non-vacuity: 2-entry palette + incomplete third entry, 1-byte tRNS; 1-bit indexed row expanded with alpha *)
 Example C08_nonvacuous :
   transform_row (mk_tinfo 3 1 (Some [10; 20; 30; 40; 50; 60; 70]) (Some [9])) 16 [160] (repeatz 0 12)
@@ -108,3 +141,6 @@ Print Assumptions C08_rows_8bit_colour_key_or_alpha.
 Print Assumptions C08_rows_16bit_colour_key_or_alpha.
 Print Assumptions C08_rows_strip16.
 Print Assumptions C08_rows_unchanged.
+Print Assumptions C08_rows_grey_subbyte.
+Print Assumptions C08_rows_palette_subbyte.
+Print Assumptions C08_rows_palette_8bit.
